@@ -17,7 +17,7 @@ def run(rep, tier):
     rep.rule('R11.1', 'invoke bookkeeping in both engines: (un)invocation happens only after the internal queue was found empty and before the external dequeue; every invoke site adds its state to _invocations on every path (also when invoke threw), uninvoke sites remove it, invocation is skipped for members, and the completion step uninvokes every member of _invocations independent of the configuration')
     rep.rule('R11.2', 'finalize before match: in InterpreterImpl::dequeueExternal the finalize block and autoforwarding are executed before the event is returned to the micro-stepper, both keyed by the event\'s invokeid')
     rep.rule('R11.3', 'invoker protocol: run() enqueues done.invoke only after the step loop ended with FINISHED and under the _isActive test; stop() clears _isActive, then cancels the child, then joins, on every path with a thread; uninvoke() stops; ParentQueueImpl::enqueue and eventFromSCXML are gated by _isActive')
-    rep.rule('R11.4', 'routing table of SCXMLIOProcessor::eventFromSCXML: "" -> enqueueExternal, #_internal -> enqueueInternal, #_parent -> enqueueAtParent, #_scxml_<id> -> that session, #_<id> -> enqueueAtInvoker, anything else -> error.communication; more specific prefixes are tested first')
+    rep.rule('R11.4', 'routing table of SCXMLIOProcessor::eventFromSCXML: "" -> enqueueExternal, #_internal -> enqueueInternal, #_parent -> enqueueAtParent, #_scxml_<id> -> that session or, when there is no such session, the invocation of that id, #_<id> -> enqueueAtInvoker, anything else -> error.communication; more specific prefixes are tested first')
     rep.rule('R11.5', 'no lock-order cycle through the invoker thread, the invoker mutex or a child session\'s locks')
     rep.rule('R11.7', 'per-invoke containment: every invoke() call of the engines (macrostep end and deserialize) sits alone in a try with catch(...) inside its loop, so a failing <invoke> does not keep its siblings from being started')
     rep.rule('R11.6', 'invoke-id user datum: every reader of the "invokeid" user data tests it for NULL before use (the engines record a state as invoked even when invoke failed before the id existed)')
@@ -226,7 +226,7 @@ def run(rep, tier):
         key = '' if is_len0 else (lits[0] + ('*' if prefix else '') if lits else '?')
         table.append((key, sink))
     else_throws = top[1] is not None and any(s['k'] == 'CXXThrowExpr' for s in sub(top[1]))
-    expect = [('', ['enqueueExternal']), ('#_internal', ['enqueueInternal']), ('#_parent', ['enqueueAtParent']), ('#_scxml_*', ['enqueueExternal']), ('#_*', ['enqueueAtInvoker'])]
+    expect = [('', ['enqueueExternal']), ('#_internal', ['enqueueInternal']), ('#_parent', ['enqueueAtParent']), ('#_scxml_*', ['enqueueAtInvoker', 'enqueueExternal']), ('#_*', ['enqueueAtInvoker'])]     # an invoke id may start with scxml_: no such session -> the invoke-id rule
     rep.check(table == expect and else_throws, 'R11.4', 'eventFromSCXML|routing', io.where(), 'target -> sink table in test order: %s; unknown targets raise: %s' % (table, else_throws))
     rep.sample({'routing': table})
 
